@@ -383,13 +383,13 @@ class PoolScn:
     NAMES = ["a", "b", "c", "d", "e", "f"]
 
     @staticmethod
-    def exec_issues(add, ex, want, side, kind, check_rules=True):
+    def exec_issues(add, ex, want, side, kind, check_rules=True, iso="iso"):
         """want: list of {name, ver}"""
         res = ex.get("results") or {}
         got = sorted((n, v // 1000) for n, v in res.items())
         for n, v in res.items():
             if v % 1000 != ex.get("id"):
-                add("iso", "impl-vs-spec", "request %s got result %s=%s computed from request %s" % (ex.get("id"), n, v, v % 1000))
+                add(iso, "impl-vs-spec", "request %s got result %s=%s computed from request %s" % (ex.get("id"), n, v, v % 1000))
         if ex.get("panic"):
             add("crash", "impl-vs-spec", "request %s panicked: %s" % (ex.get("id"), ex.get("panic")))
             return
@@ -441,6 +441,35 @@ class PoolScn:
                 if impl == "panic":
                     break
             return issues
+        if mode == "upd":
+            vers = [sorted((r["name"], r["ver"]) for r in v) for v in (o or {}).get("versions") or []]
+            ops = c.get("ops") or []
+            for k, op in enumerate(ops):
+                if op.get("start") and not op.get("ok"):
+                    add("op", "impl-vs-spec", "update %d (%s) failed: %s %s" % (k, op.get("op"), op.get("err"), op.get("panic")))
+            for ex in c.get("execs") or []:
+                if ex.get("panic"):
+                    add("crash", "impl-vs-spec", "request %s (%s) panicked: %s" % (ex.get("id"), ex.get("method"), ex.get("panic")))
+                    continue
+                res = ex.get("results") or {}
+                got = sorted((n, v // 1000) for n, v in res.items())
+                done_before = sum(1 for op in ops if op.get("end") and op["end"] < ex["start"])
+                started_before_end = sum(1 for op in ops if op.get("start") and op["start"] < ex["end"])
+                match = [j for j, v in enumerate(vers) if v == got]
+                hist = "updates %s" % [(op.get("op"), "inside a rule" if op.get("inside") else "other goroutine", op.get("start"), op.get("end")) for op in ops if op.get("start")]
+                if not match:
+                    add("atomic", "impl-vs-spec", "request %s (%s, clock %s-%s) ran (rule, version) %s: not the rule set of any single installed version %s | %s | err %s"
+                        % (ex.get("id"), ex.get("method"), ex.get("start"), ex.get("end"), got, vers, hist, (ex.get("err") or "")[:80]))
+                elif max(match) < done_before:
+                    add("visible", "impl-vs-spec", "request %s (%s) started at %s after update %d had returned, and ran version %s %s | %s"
+                        % (ex.get("id"), ex.get("method"), ex.get("start"), done_before, match, got, hist))
+                elif min(match) > started_before_end:
+                    add("visible", "impl-vs-spec", "request %s (%s) ended at %s before update %d started, and ran version %s | %s"
+                        % (ex.get("id"), ex.get("method"), ex.get("end"), min(match), match, hist))
+                for n, v in res.items():
+                    if v % 1000 != ex.get("id"):
+                        add("iso", "impl-vs-spec", "request %s got result %s=%s computed from request %s" % (ex.get("id"), n, v, v % 1000))
+            return issues
         exp = o or {}
         rules = exp.get("rules") or []
         if mode == "cap":
@@ -453,9 +482,16 @@ class PoolScn:
                 add("capacity", "impl-vs-spec", "%s of %s requests completed after the gate was opened (waiters must proceed)" % (c.get("done"), c.get("clients")))
             if c.get("peak2") != exp.get("peak2"):
                 add("capacity", "impl-vs-spec", "after %s requests (some failing) only %s of %s instances could be used simultaneously" % (c.get("clients"), c.get("peak2"), c.get("max")))
+            for ex in c.get("execs2") or []:
+                res = ex.get("results") or {}
+                if any(v % 1000 != ex.get("id") for v in res.values()) or ex.get("out") != ex.get("id") or ex.get("echo") != ex.get("id"):
+                    add("double", "impl-vs-spec", "second round, request %s: results %s, its own object out=%s echo=%s - another in-flight request used the same engine instance"
+                        % (ex.get("id"), res, ex.get("out"), ex.get("echo")))
             for ex in c.get("execs") or []:
                 failing = ex.get("id", 0) % 3 == 0
-                PoolScn.exec_issues(add, ex, [] if failing else rules, "spec", "impl-vs-spec", check_rules=not failing or c.get("model") == 1)
+                PoolScn.exec_issues(add, ex, [] if failing else rules, "spec", "impl-vs-spec", check_rules=not failing or c.get("model") == 1, iso="double")
+                if not failing and (ex.get("out") != ex.get("id") or ex.get("echo") != ex.get("id")):
+                    add("double", "impl-vs-spec", "request %s: its own object holds out=%s echo=%s - another in-flight request used the same engine instance" % (ex.get("id"), ex.get("out"), ex.get("echo")))
                 if failing and not ex.get("err"):
                     add("exec", "impl-vs-spec", "request %s: a rule panicking in an injected function reported no error" % ex.get("id"))
         if mode == "iso":
@@ -463,9 +499,17 @@ class PoolScn:
                 PoolScn.exec_issues(add, ex, rules, "spec", "impl-vs-spec")
                 if ex.get("out") != ex.get("id") or ex.get("echo") != ex.get("id"):
                     add("iso", "impl-vs-spec", "request %s: its own object holds out=%s echo=%s" % (ex.get("id"), ex.get("out"), ex.get("echo")))
-            pr = c.get("probe") or {}
-            if pr.get("results") or not pr.get("err"):
-                add("leak", "impl-vs-spec", "a request that injected nothing ran rules reading q: results %s err %r" % (pr.get("results"), pr.get("err")))
+            for ex in c.get("execs2") or []:
+                PoolScn.exec_issues(add, ex, rules, "spec", "impl-vs-spec")
+                if ex.get("out") != ex.get("id") or ex.get("echo") != ex.get("id"):
+                    add("iso", "impl-vs-spec", "request %s (%s): its own object holds out=%s echo=%s" % (ex.get("id"), ex.get("method"), ex.get("out"), ex.get("echo")))
+            for pr in [c.get("probe") or {}] + (c.get("probes") or []):
+                if pr.get("method") == "selected-none":
+                    if pr.get("results"):
+                        add("leak", "impl-vs-spec", "request %s selected no existing rule and was handed the results %s" % (pr.get("id"), pr.get("results")))
+                    continue
+                if pr.get("results") or not pr.get("err"):
+                    add("leak", "impl-vs-spec", "request %s injected nothing and ran rules reading q: results %s err %r" % (pr.get("id"), pr.get("results"), pr.get("err")))
             if c.get("mutated"):
                 add("mutated", "impl-vs-spec", "a result map handed back to a caller changed after later requests")
         return issues
